@@ -2234,7 +2234,7 @@ def select_functions(ast, unit):
     return [chosen[(w['q'], w.get('sig') or w.get('sig_exact'), str(w.get('targs')) + str(w.get('class_targ')))] for w in want]
 
 
-def lower_unit(ast, unit):
+def lower_unit(ast, unit, strip_loops=None):
     L = Lower(ast, unit)
     # records
     for q in unit.RECORDS:
@@ -2251,6 +2251,9 @@ def lower_unit(ast, unit):
         L.records[q] = found
         L.rec_cname[q] = 'struct ' + L.mangle(unit.RECORD_NAMES.get(q, q) if hasattr(unit, 'RECORD_NAMES') else q)
     sel = select_functions(ast, unit)
+    if strip_loops:
+        # bounded search (tools/pipeline.py): the function's loop contracts are left out, its loops are unwound instead
+        sel = [(d, dict((k, v) for k, v in w.items() if k != 'loops') if L.fn_cname(d, w) in strip_loops else w) for d, w in sel]
     for d, w in sel:
         cname = L.fn_cname(d, w)
         if cname in L.fn_info:
